@@ -123,6 +123,10 @@ type gstate struct {
 func allGoroutines() map[int64]gstate {
 	buf := make([]byte, 4<<20)
 	n := runtime.Stack(buf, true)
+	for n == len(buf) { // the dump must be complete: a goroutine missing from it would count as gone
+		buf = make([]byte, 2*len(buf))
+		n = runtime.Stack(buf, true)
+	}
 	out := map[int64]gstate{}
 	for _, block := range strings.Split(string(buf[:n]), "\n\n") {
 		m := headerRe.FindStringSubmatch(block)
